@@ -17,6 +17,7 @@ ID = "C03"
 LEVEL = "exploration"
 QUICK_SHARDS = 4
 MIN_NONTRIVIAL = 50
+FUZZ_RUNS = 120000     # thorough tier: atheris executions (all children)
 RULE = (
     "(A) fully specified recipes of the four classes and a variant that is "
     "the same graph by construction (bijective renaming, shuffled insertion "
@@ -217,7 +218,7 @@ def run(ctx):
         ctx.note(case, nontrivial(case, ma, info), labs)
         check_case(ctx, case)
 
-    ctx.hyp("c03", S.tapes(900).map(gen), check, ctx.scale(6000, 320000),
+    ctx.hyp("c03", S.mapped(900, gen), check, ctx.scale(6000, 320000),
             shrinker=shrink)
 
     from vp.props import c02
@@ -237,7 +238,7 @@ def run(ctx):
                  ["via:pair", "pair-isomorphic" if found
                   else "pair-not-isomorphic"])
 
-    ctx.hyp("c03-pairs", S.tapes(1200).map(gen_p), check_p,
+    ctx.hyp("c03-pairs", S.mapped(1200, gen_p), check_p,
             ctx.scale(3000, 150000), shrinker=shrink)
 
     from vp.props import c01
@@ -264,9 +265,11 @@ def run(ctx):
             "del_atom_change", "del_bond_change", "del_atom_stereo",
             "del_bond_stereo"}), ["via:history", f"cls:{case['cls']}"])
 
-    ctx.hyp("c03-history", S.tapes(2500).map(gen_h), check_h,
+    ctx.hyp("c03-history", S.mapped(2500, gen_h), check_h,
             ctx.scale(2500, 100000), shrinker=c01.shrink_history)
 
+    if getattr(ctx, "collect_only", False):
+        return                         # atheris stage: generators only
     # process independence
     nseeds = 3 if ctx.quick else 12
     batch = 40 if ctx.quick else 120
@@ -288,5 +291,5 @@ def run(ctx):
             ctx.note(r, True, ["via:process", f"cls:{r['cls']}"])
         check_process(ctx, case)
 
-    ctx.hyp("c03-proc", S.tapes(1200).map(gen_batch), check_b,
+    ctx.hyp("c03-proc", S.mapped(1200, gen_batch), check_b,
             ctx.scale(8, 32), ddmin=False)
